@@ -65,7 +65,7 @@ theorem lexNumber_numLex (lx : Bytes) (hl : NumLex lx) (pre tail : Bytes) (dbg :
     | false =>
       have hsp : spanDigits ((d0 :: dr) ++ tail) = (d0 :: dr, tail) := spanDigits_append _ _ hds htd
       rcases tail with _ | ⟨b, r⟩
-      · simp only [List.append_nil, List.cons_append] at hsp
+      · simp only [List.append_nil] at hsp
         cases neg <;> (unfold lexNumber; simp [lexSign, hd0s, hm, lexDigits, hsp, Iter.eat])
       · have := htl b r rfl
         simp only [List.cons_append] at hsp
@@ -245,17 +245,17 @@ theorem parseValue_stringify (laws : NumLaws ops) : (v : JsonValue N) → (fuel 
     obtain ⟨f, rfl⟩ : ∃ f, fuel = f + 1 := ⟨fuel - 1, by simp [need] at hf; omega⟩
     simp only [stringify, bN, List.cons_append, List.nil_append, parseValue]
     simp (disch := decide) only [skipWs_cons]
-    simp [isDigit, parseTag, bN, parseTagGo]
+    simp [isDigit, parseTag, parseTagGo]
   | .bool true, fuel, pre, tail, dbg, _, hf, _ => by
     obtain ⟨f, rfl⟩ : ∃ f, fuel = f + 1 := ⟨fuel - 1, by simp [need] at hf; omega⟩
     simp only [stringify, bT, List.cons_append, List.nil_append, parseValue]
     simp (disch := decide) only [skipWs_cons]
-    simp [isDigit, parseTag, bT, parseTagGo]
+    simp [isDigit, parseTag, parseTagGo]
   | .bool false, fuel, pre, tail, dbg, _, hf, _ => by
     obtain ⟨f, rfl⟩ : ∃ f, fuel = f + 1 := ⟨fuel - 1, by simp [need] at hf; omega⟩
     simp only [stringify, bF, List.cons_append, List.nil_append, parseValue]
     simp (disch := decide) only [skipWs_cons]
-    simp [isDigit, parseTag, bF, parseTagGo]
+    simp [isDigit, parseTag, parseTagGo]
   | .num n, fuel, pre, tail, dbg, ht, hf, _ => by
     obtain ⟨f, rfl⟩ : ∃ f, fuel = f + 1 := ⟨fuel - 1, by simp [need] at hf; omega⟩
     obtain ⟨b, r, e, hb⟩ := numLex_head (laws.lex n)
@@ -305,7 +305,7 @@ theorem parseValue_stringify (laws : NumLaws ops) : (v : JsonValue N) → (fuel 
       have := parseArrayRest_items laws r f2 ((stringify ops x).reverse ++ 0x5b :: pre) tail dbg [x] (by omega) hw.2
       simp only [List.singleton_append] at this ⊢
       rw [this]
-      simp [itemsTail]
+      simp
   | .obj kvs, fuel, pre, tail, dbg, ht, hf, hw => by
     obtain ⟨f, rfl⟩ : ∃ f, fuel = f + 1 := ⟨fuel - 1, by simp [need] at hf; omega⟩
     simp only [need] at hf
@@ -378,7 +378,7 @@ theorem parseObjectLoop_members (laws : NumLaws ops) : (kvs : List (List Char ×
     rw [e, List.cons_append, skipWs_cons _ _ _ _ (by decide)]
     simp only [beq_iff_eq, show (0x22 : UInt8) ≠ 0x7d by decide, if_false, if_true]
     rw [← List.cons_append, ← e, parseQuotedString_quote]
-    simp only [Res.bind_ok, List.cons_append]
+    simp only [Res.bind_ok]
     simp (disch := decide) only [skipWs_cons]
     simp only [expectNext, Res.bind_ok, bne_self_eq_false, Bool.false_eq_true, if_false]
     simp only [skipWs_good _ _ _ _ (stringify_head ops laws v)]
